@@ -93,7 +93,8 @@ def run_unit(unit, cfg, profile_name="default", extra_args=None, canary=False, s
     vc_path = os.path.join(ROOT, cfg["vc"])
     os.makedirs(os.path.join(BUILD, unit), exist_ok=True)
     try:
-        text, origins, log = template.build(vc_path, REPO, cfg.get("defines", {}), canary=canary)
+        kd = cfg.get("expected_not_under_contract")
+        text, origins, log = template.build(vc_path, REPO, cfg.get("defines", {}), canary=canary, known_drops=set(kd) if kd is not None else None)
         if canary:
             r.canaries = {"expected": log.canaries}
     except (template.TemplateError, template.ScanError, template.macroexp.MacroError) as e:
